@@ -7,12 +7,25 @@ impl<K, V> IndexMap<K, V> {
     pub fn new() -> Self { IndexMap { entries: Vec::with_capacity(8) } }
     pub fn len(&self) -> usize { self.entries.len() }
     pub fn iter(&self) -> impl DoubleEndedIterator<Item = (&K, &V)> { self.entries.iter().map(|e| (&e.0, &e.1)) }
+    pub fn keys(&self) -> impl DoubleEndedIterator<Item = &K> { self.entries.iter().map(|e| &e.0) }
+    pub fn values(&self) -> impl DoubleEndedIterator<Item = &V> { self.entries.iter().map(|e| &e.1) }
+    pub fn is_empty(&self) -> bool { self.entries.is_empty() }
+    pub fn get_index(&self, i: usize) -> Option<(&K, &V)> { self.entries.get(i).map(|e| (&e.0, &e.1)) }
 }
 impl<K: Eq, V> IndexMap<K, V> {
     pub fn get<Q: ?Sized + Eq>(&self, k: &Q) -> Option<&V> where K: Borrow<Q> {
         let mut i = 0;
         while i < self.entries.len() {
             if self.entries[i].0.borrow() == k { return Some(&self.entries[i].1); }
+            i += 1;
+        }
+        None
+    }
+    pub fn contains_key<Q: ?Sized + Eq>(&self, k: &Q) -> bool where K: Borrow<Q> { self.get(k).is_some() }
+    pub fn get_mut<Q: ?Sized + Eq>(&mut self, k: &Q) -> Option<&mut V> where K: Borrow<Q> {
+        let mut i = 0;
+        while i < self.entries.len() {
+            if self.entries[i].0.borrow() == k { return Some(&mut self.entries[i].1); }
             i += 1;
         }
         None
